@@ -101,6 +101,15 @@ class C10(Prop):
             ctx.compare("cond", lines, impl, model, oracle=lambda ln, a: None, sig=lambda ln: ln.split(" ", 1)[0])
             ctx.traces += len(lines)
         ctx.sample({"op": lines[0][:80] + "...", "impl": impl[0][:80] + "..."})
+        # concurrent use of SEPARATE objects (a transmit and a receive chain in one process): no shared scratch state may exist
+        mt = [f"cond_mt {nt} {400 if quick else 20000} {rng.randrange(1, 10**6)}" for nt in (2, 4, 4)]
+        for ln, o in zip(mt, ctx.run_impl(exe, mt, "cond-mt", timeout=900)):
+            ctx.count(ln, nontrivial=True)
+            ctx.stat("cond-mt:runs")
+            if o.isdigit() and int(o) > 0:
+                ctx.violate("cond-mt", f"{ln.split()[1]} threads, each with its own interleaver and randomizer objects and its own frames: {o} frames came back wrong "
+                            "(interleave is not the specified permutation / round trips fail) - state is shared between objects",
+                            {"stream": "cond-mt", "ops": [ln], "impl": o})
         # round trips on the implementation itself (interleave then deinterleave, randomize twice)
         rt = []
         for f in soft_frames()[:20]:
